@@ -228,7 +228,21 @@ pub unsafe fn count_alloc_stub(l: std::alloc::Layout) -> *mut u8 {
     r
 }
 pub fn alloc_reset() {
-    unsafe { ALLOC_BYTES = 0; ALLOC_CALLS = 0; }
+    unsafe { ALLOC_BYTES = 0; ALLOC_CALLS = 0; FREE_CALLS = 0; }
+}
+/// Releases of non-empty blocks since the last reset (C09: heap balance of a failed
+/// ε-copy deserialization).  Under Kani `<Global as Allocator>::deallocate`, through which
+/// every Box/Vec drop passes, is stubbed by `count_dealloc_stub`; natively the replay
+/// program's global allocator feeds the counter.
+pub static mut FREE_CALLS: usize = 0;
+#[cfg(kani)]
+pub unsafe fn count_dealloc_stub(_g: &std::alloc::Global, p: core::ptr::NonNull<u8>, l: std::alloc::Layout) {
+    if l.size() != 0 {
+        // CBMC's own free model behind std::alloc::dealloc: double/invalid frees stay failed checks
+        std::alloc::dealloc(p.as_ptr(), l);
+        let c = core::ptr::addr_of_mut!(FREE_CALLS);
+        *c = (*c).wrapping_add(1);
+    }
 }
 pub fn alloc_bytes() -> usize {
     unsafe { ALLOC_BYTES }
